@@ -333,4 +333,17 @@ theorem generated_handleControlCharResponse_eq (s : St) (c : UInt8) :
     have h2 : ¬ ((l.length : Int) + 1 + 1 + 1 = 2) := by omega
     simp [Go.len, h0, h1, h2]
 
+/-- the `range` loop of `util.ByteIsAny` as translated from the current source is list membership —
+which is what the translator's library table renders its call sites in
+`handleControlCharResponse` as -/
+theorem generated_byteIsAny_eq (b : UInt8) (l : Bytes) :
+    Gen.Bodies.Telnet.byteIsAny b l = l.contains b := by
+  unfold Gen.Bodies.Telnet.byteIsAny Go.forRange
+  rw [Go.forRangeFrom_find (fun ss => b == ss) (fun _ => true)]
+  induction l with
+  | nil => simp
+  | cons a l ih =>
+    simp only [List.find?, List.contains_cons]
+    cases h : b == a <;> simp [ih]
+
 end Scrapli.Telnet.C15
